@@ -84,7 +84,7 @@ func input(tag, kind string, lo, hi uint64) uint64 {
 	e := tape[tapePos]
 	tapePos++
 	// scheduler / select / map-order records are informational natively
-	for e.Tag == "sched" || e.Tag == "select" || e.Tag == "maporder" {
+	for e.Kind == "choice" {
 		if tapePos >= len(tape) {
 			panic(fmt.Sprintf("vnd: tape exhausted at %s", tag))
 		}
